@@ -43,7 +43,11 @@ import (
 	"verifharness/lib/run"
 )
 
-const zeroKey = "client-migration-zero-servers:restart-fails"
+const (
+	zeroKey       = "client-migration-zero-servers:restart-fails"
+	staleKeyList  = "client-stale-round:former-gca-list-merged"
+	staleKeyOrder = "client-stale-round:former-gca-order-followed"
+)
 
 func main() {
 	run.Main(run.Spec{
@@ -54,7 +58,7 @@ func main() {
 		Rule: "server side: one case = one POST /authorized-servers (new, duplicate with changed ports/location, same content re-signed, ban, second ban, un-ban attempt incl. replay of the original record, " +
 			"bad/foreign signature on each of these, posts before registration) followed by GET + snapshot; non-trivial = the post names an existing key or carries a signature that verifies under the GCA key. " +
 			"client side: one case = one sync round against the harness-held server (server lists: new / duplicate with changed ports / ban / second ban / un-ban / duplicates inside one list / one bad entry signature / wrong server key / stale time; " +
-			"a second/third record for one key without the GCA's signature, in lists and in orders; migration orders with 0..4 servers: valid, outer invalid or foreign, inner signed by old/foreign GCA, for another device, to the current GCA, signed by a former GCA) or one restart; " +
+			"a second/third record for one key without the GCA's signature, in lists and in orders; migration orders with 0..4 servers: valid, outer invalid or foreign, inner signed by old/foreign GCA, for another device, to the current GCA, signed by a former GCA) or one restart; overlap: a round held back by the server while another round completes (and mostly migrates), then answered with an unsigned order naming the former GCA / a list or an order signed by the former GCA / a list signed by the current GCA; " +
 			"non-trivial = the round reached the harness-held server. Distinct by (sequence seed, step).",
 		Assumptions: []string{
 			"the client's report loop is parked at its loop head (send.loop hook), so only the rounds issued by the harness run",
@@ -78,7 +82,7 @@ func main() {
 			for _, k := range []string{"srv.new_added", "srv.dup_ignored", "srv.ban_effective", "srv.on_banned_ignored", "srv.badsig_ignored", "srv.prereg_ignored",
 				"cli.contacted", "cli.entry_added", "cli.ban_applied", "cli.unban_ignored", "cli.dup_ignored", "cli.rejected_unchanged", "cli.migration_adopted", "cli.restart_ok",
 				"cli.class.mig_inner_wrong", "cli.class.mig_outer_invalid", "cli.class.mig_other_device", "cli.class.list_badsig",
-				"cli.class.list_dup_unsigned", "cli.class.mig_dup_unsigned", "cli.zero_order_delivered"} {
+				"cli.class.list_dup_unsigned", "cli.class.mig_dup_unsigned", "cli.zero_order_delivered", "cli.overlap", "cli.overlap_migrated_meanwhile"} {
 				c.Require(k, 1)
 			}
 		},
@@ -790,7 +794,9 @@ type cseq struct {
 	c           *client.Client
 	cur         cliView // last observed (and validated) state
 	steps       []string
-	zeroAdopted bool // the list is empty because a valid zero-server order was adopted
+	probe       bool      // judgeRound only answers, it records nothing
+	judgeGCA    *[32]byte // judge as if this were the client's GCA
+	zeroAdopted bool      // the list is empty because a valid zero-server order was adopted
 }
 
 func (q *cseq) gcaIndex() int {
@@ -964,7 +970,7 @@ func (q *cseq) build(forceZero bool) (raw []byte, class string, terminal bool) {
 				d.Banned = false
 				d.TCP++
 			}
-			switch rng.Intn(6) {
+			switch rng.Intn(9) {
 			case 0:
 				rng.Read(d.Sig[:])
 			case 1:
@@ -973,7 +979,7 @@ func (q *cseq) build(forceZero bool) (raw []byte, class string, terminal bool) {
 				d = d.Signed(q.foreign.Priv)
 			case 3:
 				d = d.Signed(q.rogue.Key.Priv)
-			case 4:
+			case 4, 6, 7, 8: // same 64 signature bytes, different content
 				d.Sig = first.Sig // the genuine signature of the first record, which covers other content
 				if content(d) == content(first) {
 					d.Banned = !d.Banned
@@ -1238,7 +1244,9 @@ func (q *cseq) judgeRound(raw []byte, class string, contacted bool, ret bool) bo
 	ok := true
 	bad := func(key, f string, a ...interface{}) {
 		ok = false
-		r.Violationf(key, rp, "after a round of class %s: "+f, append([]interface{}{class}, a...)...)
+		if !q.probe {
+			r.Violationf(key, rp, "after a round of class %s: "+f, append([]interface{}{class}, a...)...)
+		}
 	}
 	if ferr != nil {
 		bad("client-files-unreadable", "the client's files do not decode: %v", ferr)
@@ -1248,12 +1256,17 @@ func (q *cseq) judgeRound(raw []byte, class string, contacted bool, ret bool) bo
 		bad("client-state-differs-from-files", "state and files differ: %s", d)
 	}
 	old := q.cur
-	G := q.gcas[q.gcaIndex()]
+	gcaPub := q.gcas[q.gcaIndex()].Pub
+	if q.judgeGCA != nil {
+		gcaPub = *q.judgeGCA
+	}
 	kind, rep := kReject, refenc.SyncReply{}
 	if contacted {
-		kind, rep = classify(raw, q.dev.Pub, q.rogue.Key.Pub, G.Pub, time.Now().Unix())
+		kind, rep = classify(raw, q.dev.Pub, q.rogue.Key.Pub, gcaPub, time.Now().Unix())
 	}
-	r.Count(fmt.Sprintf("cli.kind.%d", kind), 1)
+	if !q.probe {
+		r.Count(fmt.Sprintf("cli.kind.%d", kind), 1)
+	}
 	idChanged := obs.GCA != old.GCA || obs.ID != old.ID
 	byKey := map[[32]byte][]refenc.AuthServer{}
 	for _, s := range rep.Servers {
@@ -1325,7 +1338,7 @@ func (q *cseq) judgeRound(raw []byte, class string, contacted bool, ret bool) bo
 			bad("client-identity-changed-without-valid-order", "GCA key / short id changed (%x/%d -> %x/%d) although the reply is not a valid order for this device", old.GCA[:4], old.ID, obs.GCA[:4], obs.ID)
 		}
 		checkKeys(func(k [32]byte) entSet { return startOf(k) })
-		if ok {
+		if ok && !q.probe {
 			r.Count("cli.rejected_unchanged", 1)
 		}
 	case kList:
@@ -1339,7 +1352,9 @@ func (q *cseq) judgeRound(raw []byte, class string, contacted bool, ret bool) bo
 		case !idChanged && !toCurrent:
 			// order not (yet) followed: then nothing of it may have been taken over
 			checkKeys(func(k [32]byte) entSet { return startOf(k) })
-			r.Count("cli.order_ignored", 1)
+			if !q.probe {
+				r.Count("cli.order_ignored", 1)
+			}
 		case !idChanged && toCurrent:
 			// same GCA, same id: its servers are validly signed by the client's GCA
 			checkKeys(func(k [32]byte) entSet {
@@ -1351,7 +1366,9 @@ func (q *cseq) judgeRound(raw []byte, class string, contacted bool, ret bool) bo
 				}
 				return s
 			})
-			r.Count("cli.order_to_current_merged", 1)
+			if !q.probe {
+				r.Count("cli.order_to_current_merged", 1)
+			}
 		default:
 			if obs.GCA != rep.NewGCA || obs.ID != rep.NewID {
 				bad("client-identity-differs-from-order", "identity became %x/%d, the order says %x/%d", obs.GCA[:4], obs.ID, rep.NewGCA[:4], rep.NewID)
@@ -1369,7 +1386,7 @@ func (q *cseq) judgeRound(raw []byte, class string, contacted bool, ret bool) bo
 				}
 				return s
 			})
-			if ok {
+			if ok && !q.probe {
 				r.Count("cli.migration_adopted", 1)
 				r.Count(fmt.Sprintf("cli.migration_adopted.servers_%d", len(rep.Servers)), 1)
 				q.zeroAdopted = len(rep.Servers) == 0 && len(obs.Servers) == 0
@@ -1378,6 +1395,9 @@ func (q *cseq) judgeRound(raw []byte, class string, contacted bool, ret bool) bo
 	}
 	if !ok {
 		return false
+	}
+	if q.probe {
+		return true
 	}
 	// what was seen (positive controls)
 	for k, n := range obs.Servers {
@@ -1414,6 +1434,163 @@ func (q *cseq) judgeRound(raw []byte, class string, contacted bool, ret bool) bo
 	}
 	q.cur = obs
 	return true
+}
+
+// overlap: round A is held by the contacted server (it simply does not answer
+// yet); round B runs to completion meanwhile and is judged as usual; only then
+// A gets its answer. Whatever A's answer is, it is judged against the client
+// as it is when A's answer arrives: its current GCA decides. Barriers are the
+// server's own accept events and the completion of the two calls.
+func (q *cseq) overlap(step int) bool {
+	r, rng := q.r, q.rng
+	giOld := q.gcaIndex()
+	Gold := q.gcas[giOld]
+	park := make(chan []byte, 1)
+	arrived := make(chan struct{}, 1)
+	var mu sync.Mutex
+	first := true
+	var replyB []byte
+	q.rogue.SetReply(func(req []byte, n int) ([]byte, int) {
+		mu.Lock()
+		f := first
+		first = false
+		mu.Unlock()
+		if f {
+			arrived <- struct{}{}
+			return <-park, -1
+		}
+		mu.Lock()
+		defer mu.Unlock()
+		return replyB, -1
+	})
+	doneA := make(chan bool, 1)
+	cl := q.c
+	run.Op("%s overlap step %d: round A starts", q.label, step)
+	go func() { doneA <- cl.VerifSyncOnce(0) }()
+	select {
+	case <-arrived:
+	case <-doneA:
+		r.Count("cli.overlap_a_did_not_reach_server", 1)
+		return true
+	case <-time.After(40 * time.Second):
+		r.Inconc("overlap: round A neither reached the server nor ended within 40 s")
+		park <- nil
+		return false
+	}
+	releaseA := func(raw []byte) (bool, bool) {
+		park <- raw
+		select {
+		case ret := <-doneA:
+			return ret, true
+		case <-time.After(40 * time.Second):
+			r.Inconc("overlap: round A did not end within 40 s after its answer")
+			return false, false
+		}
+	}
+	// ---- round B
+	var rawB []byte
+	var classB string
+	wantOrder := rng.Intn(10) < 7 // mostly a genuine order that keeps the contacted server
+	for {
+		var term bool
+		rawB, classB, term = q.build(false)
+		if term {
+			continue
+		}
+		if wantOrder && classB == "mig_valid" {
+			break
+		}
+		if !wantOrder && (classB == "list_new" || classB == "list_ban" || classB == "list_multi") {
+			break
+		}
+	}
+	mu.Lock()
+	replyB = rawB
+	mu.Unlock()
+	q.steps = append(q.steps, "overlapB:"+classB)
+	a0 := q.rogue.AcceptCount()
+	run.Op("%s overlap step %d: round B class=%s", q.label, step, classB)
+	retB := q.c.VerifSyncOnce(binary.LittleEndian.Uint32(rawB[34:38]))
+	contactedB := q.rogue.AcceptCount() > a0
+	r.Eval(1)
+	if !q.judgeRound(rawB, classB, contactedB, retB) {
+		releaseA(nil)
+		return false
+	}
+	if q.gcaIndex() < 0 || q.gcaIndex()+1 >= len(q.gcas) {
+		releaseA(nil)
+		r.Inconc("client's GCA key is none of the harness's keys")
+		return false
+	}
+	// ---- A's answer, built against the client as it is now
+	Gcur := q.gcas[q.gcaIndex()]
+	Gnext := q.gcas[q.gcaIndex()+1]
+	migrated := Gcur.Pub != Gold.Pub
+	rep := refenc.SyncReply{DevKey: q.dev.Pub, Offset: uint32(rng.Intn(1 << 20)), Unix: uint64(time.Now().Unix())}
+	for i := range rep.Bitfield {
+		rep.Bitfield[i] = 0xff
+	}
+	rogueRec := refenc.AuthServer{Pub: q.rogue.Key.Pub, Location: "127.0.0.1", TCP: q.rogue.Port, UDP: 9}
+	classA := ""
+	switch w := rng.Intn(100); {
+	case w < 35: // no signature at all: "back" to the GCA of the round's start
+		rep.NewGCA, rep.NewID = Gold.Pub, 666+uint32(rng.Intn(1000))
+		rep.Servers = []refenc.AuthServer{rogueRec.Signed(Gold.Priv)}
+		classA = "overlapA:unsigned_order_to_start_gca"
+	case w < 60: // a plain list signed by the GCA of the round's start
+		rep.Servers = append(rep.Servers, q.newEntry(true).Signed(Gold.Priv))
+		if e, ok := q.pick(false, false); ok && rng.Intn(2) == 0 {
+			b := asRecord(e)
+			b.Banned = true
+			rep.Servers = append(rep.Servers, b.Signed(Gold.Priv))
+		}
+		classA = "overlapA:list_by_start_gca"
+	case w < 85: // an order signed by the GCA of the round's start
+		rep.NewGCA, rep.NewID = Gnext.Pub, uint32(rng.Intn(1<<31))
+		rep.Servers = []refenc.AuthServer{q.newEntry(true).Signed(Gnext.Priv), rogueRec.Signed(Gnext.Priv)}
+		m := refenc.Migration{Equipment: rep.DevKey, NewGCA: rep.NewGCA, NewID: rep.NewID, Servers: rep.Servers}
+		rep.MigSig = m.Signed(Gold.Priv).Sig
+		classA = "overlapA:order_by_start_gca"
+	default: // a list signed by the GCA the client has now
+		rep.Servers = append(rep.Servers, q.newEntry(true).Signed(Gcur.Priv))
+		classA = "overlapA:list_by_current_gca"
+	}
+	rawA := refenc.BuildSyncReply(rep, q.rogue.Key.Priv)
+	q.steps = append(q.steps, fmt.Sprintf("%s(migrated_meanwhile=%v)", classA, migrated))
+	run.Op("%s overlap step %d: round A answered class=%s migrated=%v", q.label, step, classA, migrated)
+	retA, ended := releaseA(rawA)
+	if !ended {
+		return false
+	}
+	r.Eval(1)
+	r.Nontrivial(fmt.Sprintf("%s/overlap%d", q.label, step))
+	r.Count("cli.overlap", 1)
+	r.Count("cli.class."+classA, 1)
+	if migrated {
+		r.Count("cli.overlap_migrated_meanwhile", 1)
+		// Is the state what the reply allows under the client's GCA? If not: is
+		// it exactly what the reply would allow had the client still the GCA it
+		// had when round A started? That is the one disagreement with a name.
+		saved := q.cur
+		q.probe = true
+		underCurrent := q.judgeRound(rawA, classA, true, retA)
+		q.judgeGCA = &Gold.Pub
+		underStart := q.judgeRound(rawA, classA, true, retA)
+		q.judgeGCA, q.probe = nil, false
+		q.cur = saved
+		if !underCurrent && underStart {
+			obs := viewOf(q.c)
+			rp := q.replay(map[string]interface{}{"class": classA, "reply": hx(rawA), "round_returned": retA})
+			if obs.GCA != q.cur.GCA || obs.ID != q.cur.ID {
+				r.Violationf(staleKeyOrder, rp, "a round that began under GCA %x was answered, after the client had migrated to GCA %x, with an order signed by the FORMER GCA; the client followed it (now GCA %x, id %d)", Gold.Pub[:4], Gcur.Pub[:4], obs.GCA[:4], obs.ID)
+			} else {
+				r.Violationf(staleKeyList, rp, "a round that began under GCA %x was answered, after the client had migrated to GCA %x, with a server list signed by the FORMER GCA; its records were merged into the client's list: %s", Gold.Pub[:4], Gcur.Pub[:4], q.cur.diff(obs))
+			}
+			q.cur = obs
+			return true
+		}
+	}
+	return q.judgeRound(rawA, classA, true, retA)
 }
 
 func (q *cseq) restart(reason string) bool {
@@ -1488,6 +1665,10 @@ func clientSequence(r *ev.Result, rng *rand.Rand, dir, label string, zeroEnding 
 	}
 	start := time.Now()
 	rounds := 10 + rng.Intn(8)
+	overlapAt := -1
+	if rng.Intn(10) < 8 {
+		overlapAt = 1 + rng.Intn(rounds-2)
+	}
 	for step := 0; step < rounds; step++ {
 		if time.Since(start) > 40*time.Second {
 			r.Note("sequence %s cut after %d rounds (40 s of wall clock)", label, step)
@@ -1498,6 +1679,23 @@ func clientSequence(r *ev.Result, rng *rand.Rand, dir, label string, zeroEnding 
 			return
 		}
 		last := step == rounds-1
+		if step == overlapAt {
+			if !q.overlap(step) {
+				return
+			}
+			if rng.Intn(3) == 0 {
+				if !q.restart("after overlap") {
+					return
+				}
+			}
+			if e, ok := q.cur.Servers[rogue.Key.Pub]; !ok || e.Banned {
+				break
+			}
+			if q.gcaIndex() < 0 || q.gcaIndex()+1 >= len(q.gcas) {
+				r.Inconc("client's GCA key is none of the harness's keys")
+				return
+			}
+		}
 		raw, class, terminal := q.build(zeroEnding && last)
 		q.steps = append(q.steps, class)
 		rogue.SetReply(func(req []byte, n int) ([]byte, int) { return raw, -1 })
